@@ -29,23 +29,19 @@ type Config struct {
 }
 
 const (
-	sigPanic        = "C16 panic"
-	sigDupZero      = "C16 duplicate key accepted: +0/-0 pair"
-	sigDupAccepted  = "C16 duplicate key accepted"
-	sigDistinctRej  = "C16 distinct key rejected as duplicate"
-	sigSentOnDup    = "C16 request sent despite duplicate keys"
-	sigNotSent      = "C16 no (or more than one) request sent for a valid key set"
-	sigIds          = "C16 ids parameter is not each key's encoding exactly once in ascending order"
-	sigLocate       = "C16 LocateOriginalKey does not return the caller's key"
-	sigLocateZero   = "C16 LocateOriginalKey returns the probe, not the caller's key: +0/-0 pair"
-	sigUnknownOK    = "C16 response naming an unrequested or undecodable key did not produce an error"
-	sigSpuriousErr  = "C16 well-formed response about requested keys produced an error"
-	sigUnknownZero  = "C16 Equal key not found by the locator: +0/-0 pair (hash differs)"
-	sigLost         = "C16 response entry lost, duplicated or filed under another key"
-	sigRepeated     = "C16 response names one key (or field) twice: entry silently lost"
-	sigCopyZero     = "C16 entry filed under the re-decoded key, not the caller's: +0/-0 pair"
-	sigCopy         = "C16 entry filed under a key value that is not the caller's"
-	sigCodec        = "C16 key does not survive the header-encoding round trip (codec leg)"
+	sigPanic         = "C16 panic"
+	sigDupAccepted   = "C16 duplicate key accepted"
+	sigDistinctRej   = "C16 distinct key rejected as duplicate"
+	sigSentOnDup     = "C16 request sent despite duplicate keys"
+	sigNotSent       = "C16 no (or more than one) request sent for a valid key set"
+	sigIds           = "C16 ids parameter is not each key's encoding exactly once in ascending order"
+	sigLocate        = "C16 LocateOriginalKey does not return the caller's key"
+	sigUnknownOK     = "C16 response naming an unrequested or undecodable key did not produce an error"
+	sigSpuriousErr   = "C16 well-formed response about requested keys produced an error"
+	sigLost          = "C16 response entry lost, duplicated or filed under another key"
+	sigRepeated      = "C16 response naming one key (or field) twice was accepted: an entry is lost"
+	sigCopy          = "C16 entry filed under a key value that is not the caller's"
+	sigCodec         = "C16 key does not survive the header-encoding round trip (codec leg)"
 	sigMethodsDiffer = "C16 batch methods disagree on the same keys and reply"
 )
 
@@ -295,7 +291,7 @@ func runScenario[K comparable](cfg Config, r *hx.Result, ops kindOps[K], sc scen
 	}
 
 	// D1: rejected iff the multiset holds two Equal keys (the property's key equality)
-	wantDup, onlyZero := -1, true
+	wantDup := -1
 	for j := 0; j < len(keys) && wantDup < 0; j++ {
 		for i := 0; i < j; i++ {
 			if ops.specEq(keys[j], keys[i]) {
@@ -306,18 +302,11 @@ func runScenario[K comparable](cfg Config, r *hx.Result, ops kindOps[K], sc scen
 	}
 	if wantDup >= 0 {
 		r.Count("keys:with-duplicate")
-		for i := 0; i < wantDup; i++ {
-			if ops.specEq(keys[wantDup], keys[i]) && !ops.zeroPair(keys[wantDup], keys[i]) {
-				onlyZero = false
-			}
-		}
 	} else {
 		r.Count("keys:distinct")
 	}
 	if addIdx != wantDup {
 		switch {
-		case wantDup >= 0 && (addIdx < 0 || addIdx > wantDup) && onlyZero:
-			fail(sigDupZero, fmt.Sprintf("first rejected index %d", addIdx), fmt.Sprintf("key %d rejected", wantDup))
 		case wantDup >= 0 && (addIdx < 0 || addIdx > wantDup):
 			fail(sigDupAccepted, fmt.Sprintf("first rejected index %d", addIdx), fmt.Sprintf("key %d rejected", wantDup))
 		default:
@@ -369,20 +358,13 @@ func runScenario[K comparable](cfg Config, r *hx.Result, ops kindOps[K], sc scen
 			case want >= 0 && found && ops.same(got, keys[want]):
 				locs = append(locs, idOf(got))
 				r.Count("probe:found-original")
-			case want >= 0 && found && !ops.generic && ops.zeroPair(got, keys[want]):
-				locs = append(locs, idOf(got))
-				fail(sigLocateZero, "returned "+ops.bits(got), "the caller's "+ops.bits(keys[want]))
 			default:
 				if found {
 					locs = append(locs, idOf(got))
 				} else {
 					locs = append(locs, "none")
 				}
-				sig := sigLocate
-				if want >= 0 && ops.zeroPair(p, keys[want]) {
-					sig = sigLocateZero
-				}
-				fail(sig, fmt.Sprintf("found=%v %s", found, locs[len(locs)-1]), fmt.Sprintf("caller key index %d", want))
+				fail(sigLocate, fmt.Sprintf("found=%v %s", found, locs[len(locs)-1]), fmt.Sprintf("caller key index %d", want))
 			}
 		}
 		locTok := "none"
@@ -551,21 +533,16 @@ func runScenario[K comparable](cfg Config, r *hx.Result, ops kindOps[K], sc scen
 			} else {
 				r.Count("reply:well-formed")
 			}
-			if callErr != nil && repeated {
-				// rejecting a reply that names a key or field twice satisfies the property
-				r.Count("reply:repeated-key-or-field rejected")
+			if repeated {
+				// a reply that names a key or a field twice cannot be filed without losing an entry:
+				// it must be rejected (fix: a batch response naming a key or a map twice is an error)
+				if callErr == nil {
+					fail(sigRepeated, resp, "an error")
+				}
 				break
 			}
 			if callErr != nil {
-				sig := sigSpuriousErr
-				for _, f := range sc.Doc {
-					for _, e := range f.Entries {
-						if e.Idx >= 0 && ops.generic && ops.zeroPair(ops.fromSpec(e.Key), keys[e.Idx]) {
-							sig = sigUnknownZero
-						}
-					}
-				}
-				fail(sig, fmt.Sprint(callErr), "the three maps")
+				fail(sigSpuriousErr, fmt.Sprint(callErr), "the three maps")
 				break
 			}
 			for i, name := range []string{resultsField, statusesField, errorsField} {
@@ -574,47 +551,30 @@ func runScenario[K comparable](cfg Config, r *hx.Result, ops kindOps[K], sc scen
 					continue
 				}
 				entries := sc.Doc[fi].Entries
-				if len(mapKeys[i]) != len(entries) || repeated {
-					// entries of all occurrences of the field, and of repeated keys, should all be there
-					total := 0
-					for _, f := range sc.Doc {
-						if f.Name == name {
-							total += len(f.Entries)
-						}
-					}
-					if len(mapKeys[i]) < total {
-						if repeated {
-							fail(sigRepeated, fmt.Sprintf("%s has %d entries, reply had %d", name, len(mapKeys[i]), total), "an error, or every entry kept")
-						} else {
-							fail(sigLost, fmt.Sprintf("%s has %d entries, reply had %d", name, len(mapKeys[i]), total), "one entry per reply entry")
-						}
-						continue
-					}
+				if len(mapKeys[i]) != len(entries) {
+					fail(sigLost, fmt.Sprintf("%s has %d entries, reply had %d", name, len(mapKeys[i]), len(entries)), "one entry per reply entry")
+					continue
 				}
 				for _, e := range entries {
 					caller := keys[e.Idx]
-					var hit *K
-					for j := range mapKeys[i] {
-						if ops.same(mapKeys[i][j], caller) {
-							hit = &mapKeys[i][j]
+					hit := false
+					for _, k := range mapKeys[i] {
+						if ops.same(k, caller) {
+							hit = true
 						}
 					}
-					if hit != nil {
+					if hit {
 						continue
 					}
-					// not under the caller's own key value: under an Equal copy?
+					// not under the caller's own key value (pointer identity / identical bits): under an
+					// Equal copy, or nowhere
 					sig := sigLost
 					for _, k := range mapKeys[i] {
 						if ops.specEq(k, caller) {
 							sig = sigCopy
-							if ops.zeroPair(k, caller) {
-								sig = sigCopyZero
-							}
 						}
 					}
-					if !(repeated && sig == sigLost) {
-						fail(sig, resp, fmt.Sprintf("%s entry for caller key %d filed under that key", name, e.Idx+1))
-					}
+					fail(sig, resp, fmt.Sprintf("%s entry for caller key %d filed under that key", name, e.Idx+1))
 				}
 			}
 		}
@@ -828,7 +788,7 @@ func fixedCorpus() []scenario {
 		{Kind: "cplx", Keys: []keySpec{{U: 1, S: "a", P: str("p1"), HasP: true}, {U: 1, S: "a", P: str("p2"), HasP: true}}},
 		{Kind: "cplx", Keys: []keySpec{{U: 1, S: "a", P: str("p1"), HasP: true}, {U: 3, S: "a"}},
 			Probes: []keySpec{{U: 1, S: "a"}},
-			Doc: []fieldSpec{ok(statusesField, entrySpec{Key: keySpec{U: 3, S: "a"}, Val: 204}), ok(resultsField, entrySpec{Key: keySpec{U: 1, S: "a"}, Val: 200})}},
+			Doc:    []fieldSpec{ok(statusesField, entrySpec{Key: keySpec{U: 3, S: "a"}, Val: 204}), ok(resultsField, entrySpec{Key: keySpec{U: 1, S: "a"}, Val: 200})}},
 		// a key present in results AND errors
 		{Kind: "i32", Keys: []keySpec{{U: 1}, {U: 2}}, Doc: []fieldSpec{ok(resultsField, entrySpec{Key: keySpec{U: 1}, Val: 200}),
 			ok(errorsField, entrySpec{Key: keySpec{U: 1}, Val: 500}), ok(statusesField, entrySpec{Key: keySpec{U: 1}, Val: 7})}},
